@@ -88,7 +88,7 @@ CHECKS = {
     "C16": ("exploration",
             "differential property-based testing (proptest) with a derived tolerance: dictionaries compiled from matrix.def and from bigram.left/right/cost (raw and dual) compared on every id pair",
             "Held on 3k trained models per quick run (K = 1-10 templates: <8, 8, >8), ~370k id pairs incl. BOS/EOS rows and columns: |bigram - matrix| <= K+1 and identical id counts for raw and dual connectors.",
-            "Tolerance derived (one truncation per template plus one for the matrix cell). Small models only.",
+            "Tolerance derived (one truncation per template plus one for the matrix cell). Small models only. The dual connector is asserted only where every partial sum of the emitted costs fits 16 bits (C07's proviso; its template split depends on hash order, so a clamped pair can differ from process to process). Two open known findings (feature values that are literally '*'/empty, or contain '/') are excluded by construction and demonstrated by committed probes.",
             "5/C16"),
     "C17": ("exploration",
             "property-based testing (proptest) with a reference-model oracle (first matching rule in file order) plus bounded-exhaustive enumeration of a small rule/feature space",
